@@ -47,6 +47,9 @@ TwoSimd == {"movd","movq","paddb","paddd","paddq","pxor","pand","por","psubb","p
 ThreeSimd == {"pshufd","pextrw","pinsrw","shufps"}
 X87Arith == {"fadd","fsub","fmul","fdiv","fsubr","fdivr","fcom","fcomp"}
 X87Pop == {"faddp","fsubp","fmulp","fdivp","fsubrp","fdivrp"}
+\* condition sweep: every alias name of every condition with jcc / setcc / cmovcc (not part of the operand-shape enumeration)
+CcJ == {"j" \o c : c \in CcAll}
+CcMov == CMov
 Mnems == NoOps \cup OneInt \cup OneBr \cup OneX87 \cup TwoInt \cup TwoSimd \cup ThreeSimd \cup X87Arith \cup X87Pop \cup Shifts
          \cup {"ret","retf","movsd","imul","shld","shrd","fxch","fucom"}
 Ar(m) == CASE m \in {"ret","retf","fxch","fucom"} -> {0, 1}
@@ -56,10 +59,10 @@ Ar(m) == CASE m \in {"ret","retf","fxch","fucom"} -> {0, 1}
            [] m \in Shifts \cup X87Arith -> {1, 2}
            [] m \in X87Pop -> {0, 1, 2}
            [] m \in NoOps -> {0}
-           [] m \in OneInt \cup OneBr \cup OneX87 -> {1}
+           [] m \in OneInt \cup OneBr \cup OneX87 \cup CcJ \cup SetCc -> {1}
            [] m \in ThreeSimd -> {3}
            [] OTHER -> {2}
-Fam(m) == IF m \in OneBr THEN "br"
+Fam(m) == IF m \in OneBr \cup CcJ THEN "br"
           ELSE IF m \in OneX87 \cup X87Arith \cup X87Pop \cup {"fxch","fucom"} THEN "x87"
           ELSE IF m \in TwoSimd \cup ThreeSimd \cup {"movsd"} THEN "simd" ELSE "int"
 MaxAr(m) == CHOOSE a \in Ar(m) : \A b \in Ar(m) : b <= a
@@ -88,6 +91,11 @@ MemSweep == IF Small THEN {Line("mov", <<EAX, mm>>) : mm \in {Mem(32, "", b, x[1
         \cup {Line("inc", <<mm>>) : mm \in MemForms({16})} \cup {Line("push", <<mm>>) : mm \in MemForms({32})}
         \cup {Line("fld", <<mm>>) : mm \in MemForms({64})} \cup {Line("movq", <<Rg("mm", 1), mm>>) : mm \in MemForms({64})}
         \cup {Line("jmp", <<mm>>) : mm \in MemForms({32})}
+CcSweep == IF Small THEN {Line("jnl", <<Imm(FALSE, <<5,0,0,0>>)>>), Line("setnge", <<Rg("r8", 3)>>), Line("cmovnle", <<EAX, Rg("r32", 3)>>)}
+   ELSE {Line(m, <<o>>) : m \in CcJ, o \in {Imm(FALSE, <<5,0,0,0>>), Sym("foo")}}
+        \cup {Line(m, <<o>>) : m \in SetCc, o \in {Rg("r8", 3), M3}}
+        \cup {Line(m, <<Rg(r, 1), o>>) : m \in CcMov, r \in {"r32"}, o \in {Rg("r32", 3), M1}}
+        \cup {Line(m, <<Rg("r16", 1), Rg("r16", 3)>>) : m \in CcMov}
 ImmDst == {EAX, Rg("r32", 3), Rg("r16", 0), Rg("r16", 1), Rg("r8", 0), Rg("r8", 3), M1, M4, M3, M2}
 ImmAll == ImmVals \cup {Sym("foo")}
 ImmSweep == IF Small THEN {Line("add", <<dd, v>>) : dd \in {EAX, Rg("r8", 3), M4}, v \in ImmVals}
@@ -135,7 +143,7 @@ PlausWhy(l) ==
           <<"special_register_form", cs \cap {"cr", "dr", "sreg"} # {} => n = 1 \/ (K(1) = "reg" /\ K(2) = "reg" /\ AllSizes(l.ops) \subseteq {IF "sreg" \in cs THEN 16 ELSE 32, 32})>>,
           <<"shift_count", m \in Shifts \cup {"shld", "shrd"} /\ n >= 2 => IsImm(l.ops[n]) \/ l.ops[n] = Rg("r8", 1)>>,
           <<"needs_memory", m \in {"lds", "lgdt", "lidt", "bound", "lea"} => K(n) = "mem">>,
-          <<"operand_form", m \in {"imul", "bsf", "bsr", "bt", "bts", "btr", "btc", "cmove", "cmovg", "cmovb", "lea", "movzx", "movsx", "lds", "bound", "xchg", "xadd", "cmpxchg"}
+          <<"operand_form", m \in {"imul", "bsf", "bsr", "bt", "bts", "btr", "btc", "lea", "movzx", "movsx", "lds", "bound", "xchg", "xadd", "cmpxchg"} \cup CcMov
                    => "r8" \notin (IF m \in {"movzx", "movsx", "xchg", "xadd", "cmpxchg"} THEN {} ELSE cs) /\ (n = 1 \/ K(IF m \in {"bt","bts","btr","btc","xadd","cmpxchg","xchg"} THEN 2 ELSE 1) \in {"reg"} \cup (IF m \in {"bt","bts","btr","btc"} THEN {"imm"} ELSE {}))>>,
           <<"operand_form", m \in {"movzx", "movsx"} => n = 2 /\ RegIn(l.ops[1], {"r16", "r32"}) /\ K(2) # "imm"
                               /\ \A z \in AllSizes(SubSeq(l.ops, 2, n)) : z < (IF RegIn(l.ops[1], {"r16"}) THEN 16 ELSE 32)>>,
@@ -143,7 +151,7 @@ PlausWhy(l) ==
           <<"memory_size", m = "bound" => \A z \in MemSizes(l.ops) : \A y \in RegSizes(l.ops) : z = 2 * y>>,
           <<"operand_size", m = "bswap" => AllSizes(l.ops) \subseteq {32}>>,
           <<"size_mismatch", m \in {"shld", "shrd"} /\ n >= 2 => Cardinality(AllSizes(SubSeq(l.ops, 1, 2))) <= 1 /\ 8 \notin AllSizes(SubSeq(l.ops, 1, 2))>>,
-          <<"operand_size", m \in {"sete", "setne", "setb", "setg"} => AllSizes(l.ops) \subseteq {8}>>,
+          <<"operand_size", m \in SetCc => AllSizes(l.ops) \subseteq {8}>>,
           <<"operand_size", m \in {"push", "pop", "bswap", "lgdt", "lidt", "int"} => "r8" \notin cs /\ MemSizes(l.ops) \subseteq {16, 32}>> >>)
         [] f = "x87" -> First(<<
           <<"register_class", cs \subseteq {"st"} \cup (IF m = "fnstsw" THEN {"r16"} ELSE {})>>,
@@ -175,6 +183,7 @@ Plausible(l) == PlausWhy(l) = ""
 Init == /\ \/ /\ ins \in {Line(m, <<>>) : m \in Mnems} /\ grow = TRUE /\ src = "core"
            \/ /\ ins \in MemSweep /\ grow = FALSE /\ src = "mem"
            \/ /\ ins \in ImmSweep /\ grow = FALSE /\ src = "imm"
+           \/ /\ ins \in CcSweep /\ grow = FALSE /\ src = "cc"
         /\ plaus = PlausWhy(ins)
 MaxLen(m) == IF MaxAr(m) >= 3 THEN 3 ELSE MaxAr(m) + 1
 AddOperand == /\ grow /\ Len(ins.ops) < MaxLen(ins.mn)
